@@ -290,6 +290,28 @@ def skein_empty_key():
     from crysp.skein import Skein
     return Skein(256, 256, key=b'')(b'x') == Skein(256, 256)(b'x') and Skein(512, 512, key=b'k')(b'x') != Skein(512, 512)(b'x')
 
+def _md6ref(*a, **k):
+    sys.path.insert(0, '/verif')
+    from spec import md6 as M6
+    return bytes(M6.md6(*a, **k))
+
+def md6_seq_key():
+    # the sequential mode (L=0, or the top of a hybrid tree) must use the key like the tree mode does
+    from crysp.md import MD6
+    m = bytes(range(200))
+    return MD6(256, b'key', 0)(m) == _md6ref(256, m, None, b'key', 0) and MD6(256, b'key', 0)(m) != MD6(256, b'yek', 0)(m)
+
+def md6_seq_alignment():
+    # d not a multiple of 8: the last d bits, left-justified, in both modes
+    from crysp.md import MD6
+    m = b'abc'
+    return MD6(13, b'', 0)(m) == _md6ref(13, m, None, b'', 0) and MD6(13, b'', 64)(m) == _md6ref(13, m, None, b'', 64)
+
+def md6_bitlen_levels():
+    from crysp.md import MD6
+    m = bytes(range(256)) * 3
+    return _exc(MD6(256, b'', 1), m, 8 * 768 - 3) is None and MD6(256, b'', 1)(m, 8 * 768 - 3) == _md6ref(256, m, 8 * 768 - 3, b'', 1)
+
 ALL = [v for k, v in list(globals().items()) if callable(v) and not k.startswith('_') and getattr(v, '__module__', None) == '__main__']
 
 if __name__ == '__main__':
